@@ -272,3 +272,10 @@ def ctx_t(chk, fx):
         n_ctx = [k for k in seen if k[0][1] == "true" and "w_ctxflag.cpp" in k[0][2]]
         if len(n_ctx) < 3:
             chk.incomplete("CTX-T: the three contextual rules of witness/w_ctxflag.cpp were not all instantiated")
+
+
+def pre(chk):
+    """Type-level facts about what the rule operators build (stored functor type, contextual flag, right-side items):
+    decided before the witness grammars are extracted."""
+    from .. import tlw
+    tlw.run(chk, "RULE-T", "w_ruletype.cpp")
